@@ -23,6 +23,7 @@ func init() {
 	reg("C16.bounded", "GUARD", "readResponseBounded allocates only within [0, limit]", 1, c16bounded)
 	reg("C16.reregister", "PATH", "connect callback re-registers everything; failed round trips close the peer; callback runs on every fresh connect", 7, c16reregister)
 	reg("C16.notify", "PATH", "lookup loop: REGISTER/UNREGISTER by exiting state to every peer; PING every peer on the ticker", 6, c16notify)
+	reg("C16.peerset", "ORIG", "lookupLoop's address list mirrors its peer list (same accumulators, same elements) through connects and reconfigurations", 4, c16peerset)
 	reg("C16.precreate", "PATH", "GetTopic creates the channels lookupd knows before starting the topic pump", 3, c16precreate)
 	reg("C16.faults", "ETYPE+GUARD", "E_INVALID and undecodable IDENTIFY replies close the peer; peers without broadcast address are skipped", 3, c16faults)
 	reg("C16.noiolock", "LOCK", "no lookupd round trip (TCP command or HTTP query) while NSQD/Topic/Channel locks are held", 3, c16noiolock)
@@ -445,6 +446,21 @@ func c16precreate(c *an.Ctx) {
 	} else {
 		c.OK(fn, "every known channel is created", qc.Pos(), "")
 	}
+	// the loop runs whatever the query's error says: with several lookupds the query returns the names the
+	// reachable ones know together with a non-nil error
+	{
+		q := &an.PathQ{Fn: fn, StartAfter: []ssa.Instruction{qc.(ssa.Instruction)},
+			Sink: func(in ssa.Instruction, _ *an.PathState) bool {
+				return isCallToOn(in, start, nil) || an.IsReturn(in, nil)
+			},
+			CutEdge: func(e an.Edge, _ *an.PathState) bool { return e.To == il.Header }}
+		w, f := q.Find()
+		if f {
+			c.Bad(fn, "pre-creation does not depend on the query's error", qc.Pos(), "after GetLookupdTopicChannels a path reaches Start()/return without entering the loop over the returned names (e.g. the loop sits in the `err == nil` branch): when one of several nsqlookupds is down the channels the others know are not pre-created and miss the topic's first messages", w)
+		} else {
+			c.OK(fn, "pre-creation does not depend on the query's error", qc.Pos(), "")
+		}
+	}
 	// Start only after the query and the loop
 	for _, sc := range an.CallsTo(fn, start) {
 		q := &an.PathQ{Fn: fn, StartEntry: true, Sink: func(in ssa.Instruction, _ *an.PathState) bool { return in == sc.(ssa.Instruction) },
@@ -640,5 +656,170 @@ func c16noiolock(c *an.Ctx) {
 	}
 	if n == 0 {
 		c.Und(nil, "network call sites", token.NoPos, "no call site reaching the lookupd network functions found in package nsqd")
+	}
+}
+
+// c16peerset: lookupLoop keeps two parallel locals, the peers and their addresses; `in(host, addrs)` decides
+// whether a configured nsqlookupd still needs a peer. If the address list ever holds an address without a live
+// peer, that nsqlookupd is never connected (or re-connected) again. Structural rule: both lists are built by
+// paired appends (same block, addr element = the peer's address), each append extends the accumulator of its
+// own innermost loop, and wherever the two lists merge they merge from the same places.
+func c16peerset(c *an.Ctx) {
+	fn := c.Fn("nsqd", "(*NSQD).lookupLoop")
+	peerT := c.P.Named("nsqd", "lookupPeer")
+	newPeer := c.P.Func("nsqd", "newLookupPeer")
+	addrF := c.P.Field("nsqd", "lookupPeer", "addr")
+	if fn == nil || peerT == nil || newPeer == nil || addrF == nil {
+		return
+	}
+	kind := func(t types.Type) string {
+		sl, ok := t.Underlying().(*types.Slice)
+		if !ok {
+			return ""
+		}
+		if pt, ok := sl.Elem().(*types.Pointer); ok && types.Identical(pt.Elem(), peerT) {
+			return "peers"
+		}
+		if b, ok := sl.Elem().Underlying().(*types.Basic); ok && b.Kind() == types.String {
+			return "addrs"
+		}
+		return ""
+	}
+	loops := an.NaturalLoops(fn)
+	type app struct {
+		call *ssa.Call
+		elem ssa.Value
+	}
+	byBlock := map[*ssa.BasicBlock]map[string][]app{}
+	an.Instrs(fn, func(in ssa.Instruction) {
+		dc, ok := isBuiltinCall(in, "append")
+		if !ok {
+			return
+		}
+		k := kind(dc.Type())
+		if k == "" {
+			return
+		}
+		// append(base, elem) is compiled as append(base, slice-of-new-array): recover the single element
+		var elem ssa.Value
+		if len(dc.Call.Args) == 2 {
+			if sl, ok := dc.Call.Args[1].(*ssa.Slice); ok {
+				if al, ok := sl.X.(*ssa.Alloc); ok {
+					for _, r := range an.Referrers(al) {
+						if ia, ok := r.(*ssa.IndexAddr); ok {
+							for _, rr := range an.Referrers(ia) {
+								if st, ok := rr.(*ssa.Store); ok {
+									elem = st.Val
+								}
+							}
+						}
+					}
+				}
+			}
+		}
+		if byBlock[in.Block()] == nil {
+			byBlock[in.Block()] = map[string][]app{}
+		}
+		byBlock[in.Block()][k] = append(byBlock[in.Block()][k], app{dc, elem})
+	})
+	napp := 0
+	for b, m := range byBlock {
+		ps, as := m["peers"], m["addrs"]
+		if len(ps) != 1 || len(as) != 1 {
+			var pos token.Pos
+			for _, x := range append(ps, as...) {
+				pos = x.call.Pos()
+			}
+			c.Bad(fn, "peer and address appended together", pos, sprintf("block %d appends to one of the peer/address lists without the other: the address list no longer mirrors the peers, so a configured nsqlookupd is skipped (or connected twice) on the next (re)connect", b.Index), nil)
+			continue
+		}
+		napp++
+		pe, ae := ps[0].elem, as[0].elem
+		good := false
+		if pe != nil && ae != nil {
+			if call := an.CallResultOf(pe, newPeer); call != nil && an.SameValue(call.Call.Args[0], ae) {
+				good = true
+			}
+			if f, base := an.LoadedField(an.Strip(ae)); f == addrF && an.SameValue(base, pe) {
+				good = true
+			}
+		}
+		c.Check(good, fn, "appended address is the appended peer's address", as[0].call.Pos(), "", "the address appended next to a peer is not that peer's address")
+		for _, x := range []app{ps[0], as[0]} {
+			l := an.LoopContaining(loops, b)
+			phi, isPhi := x.call.Call.Args[0].(*ssa.Phi)
+			own := false
+			if l != nil && isPhi && phi.Block() == l.Header {
+				// the append result flows back into that phi inside the loop
+				seen := map[ssa.Value]bool{}
+				var back func(v ssa.Value) bool
+				back = func(v ssa.Value) bool {
+					if v == ssa.Value(x.call) {
+						return true
+					}
+					ph, ok := v.(*ssa.Phi)
+					if !ok || seen[v] || !l.Blocks[ph.Block()] || (ph != phi && ph.Block() == l.Header) {
+						return false
+					}
+					seen[v] = true
+					for _, e := range ph.Edges {
+						if back(e) {
+							return true
+						}
+					}
+					return false
+				}
+				for i, e := range phi.Edges {
+					if l.Blocks[phi.Block().Preds[i]] && back(e) {
+						own = true
+					}
+				}
+			}
+			c.Check(own, fn, "append extends its own loop's accumulator: "+kind(x.call.Type()), x.call.Pos(), "", "an append in lookupLoop extends a different list than the one it is assigned to (e.g. tmpAddrs = append(lookupAddrs, …)): removed peers' addresses survive a reconfiguration, and a nsqlookupd that is configured again later is never reconnected")
+		}
+	}
+	c.Check(napp >= 2, fn, "paired appends located", fn.Pos(), "", "expected the connect loop and the reconfiguration loop to append to both lists")
+	// merges: wherever a peers-phi and an addrs-phi share a block, their incoming values come from the same places
+	shape := func(v ssa.Value) string {
+		switch x := v.(type) {
+		case *ssa.Const:
+			if x.IsNil() {
+				return "nil"
+			}
+		case *ssa.Phi:
+			return sprintf("phi@%d", x.Block().Index)
+		case *ssa.Call:
+			return sprintf("call@%d", x.Block().Index)
+		}
+		return "other:" + v.Name()
+	}
+	nm := 0
+	for _, b := range fn.Blocks {
+		var pp, ap []*ssa.Phi
+		for _, in := range b.Instrs {
+			if ph, ok := in.(*ssa.Phi); ok {
+				switch kind(ph.Type()) {
+				case "peers":
+					pp = append(pp, ph)
+				case "addrs":
+					ap = append(ap, ph)
+				}
+			}
+		}
+		if len(pp) == 0 && len(ap) == 0 {
+			continue
+		}
+		if len(pp) != 1 || len(ap) != 1 {
+			c.Bad(fn, "lists merge together", b.Instrs[0].Pos(), sprintf("block %d merges one of the peer/address lists without the other", b.Index), nil)
+			continue
+		}
+		nm++
+		good := true
+		for i := range pp[0].Edges {
+			if shape(pp[0].Edges[i]) != shape(ap[0].Edges[i]) {
+				good = false
+			}
+		}
+		c.Check(good, fn, sprintf("lists merge from the same places (merge #%d)", nm), pp[0].Pos(), "", "the peer list and the address list take their values from different places at a control-flow merge: they no longer describe the same set of nsqlookupds")
 	}
 }
